@@ -388,6 +388,84 @@ impl Sess {
         }
     }
 
+    /// One builder fed by a sequence of segments - single calls, `extend_iter` batches,
+    /// `extend_stream` batches - that goes on after rejected calls and rejected batches (a batch
+    /// stops at its first rejected item; the builder stays usable).  `kind`: "raw", "map" or "set".
+    pub fn build_session(&mut self, kind: &str, segs: &[(u8, Vec<Kv>)]) -> Option<usize> {
+        let set = kind == "set";
+        let call = if set { "add" } else { "insert" };
+        // the accepted items, by the contract
+        let mut want: Vec<Kv> = vec![];
+        for (how, items) in segs {
+            for (k, v) in items {
+                let ok = want.last().map(|(l, _)| k > l).unwrap_or(true);
+                if ok {
+                    want.push((k.clone(), if set { 0 } else { *v }));
+                } else if *how != 0 && !(set && Some(k) == want.last().map(|x| &x.0)) {
+                    break;
+                }
+            }
+        }
+        let m = self.model(&want);
+        self.nb += 1;
+        let b = self.nb;
+        self.log.ev(json!({"ev": "BNew", "b": b, "m": m, "front": format!("session-{}", kind), "geo": []}));
+        enum B {
+            Raw(Builder<Vec<u8>>),
+            Map(MapBuilder<Vec<u8>>),
+            Set(SetBuilder<Vec<u8>>),
+        }
+        let mut bld = match kind {
+            "raw" => B::Raw(Builder::memory()),
+            "map" => B::Map(MapBuilder::memory()),
+            _ => B::Set(SetBuilder::memory()),
+        };
+        for (how, items) in segs {
+            let zeroed: Vec<Kv> = items.iter().map(|(k, v)| (k.clone(), if set { 0 } else { *v })).collect();
+            let items = &zeroed;
+            if *how == 0 {
+                for (k, v) in items {
+                    let r = guard(|| match &mut bld {
+                        B::Raw(x) => x.insert(k, *v),
+                        B::Map(x) => x.insert(k, *v),
+                        B::Set(x) => x.insert(k),
+                    });
+                    match r {
+                        Ok(r) => self.log.ev(json!({"ev": "BCall", "b": b, "call": call, "k": jb(k), "v": ju(*v), "res": jres(&r)})),
+                        Err(p) => {
+                            self.panic_ev("BCall", &p);
+                            return None;
+                        }
+                    }
+                }
+            } else {
+                let via = format!("session-{}-{}", kind, if *how == 1 { "extend_iter" } else { "extend_stream" });
+                let r = guard(|| match (&mut bld, *how) {
+                    (B::Raw(x), 1) => x.extend_iter(items.iter().map(|(k, v)| (k.clone(), Output::new(*v)))),
+                    (B::Raw(x), _) => x.extend_stream(VecStream { items: items.to_vec(), i: 0 }),
+                    (B::Map(x), 1) => x.extend_iter(items.iter().map(|(k, v)| (k.clone(), *v))),
+                    (B::Map(x), _) => x.extend_stream(VecStreamMap { items: items.to_vec(), i: 0 }),
+                    (B::Set(x), 1) => x.extend_iter(items.iter().map(|(k, _)| k.clone())),
+                    (B::Set(x), _) => x.extend_stream(VecStreamSet { items: items.to_vec(), i: 0 }),
+                });
+                match r {
+                    Ok(r) => self.log.ev(json!({"ev": "BExt", "b": b, "via": via, "call": call, "items": jitems(items), "res": jres(&r)})),
+                    Err(p) => {
+                        self.panic_ev("BExt", &p);
+                        return None;
+                    }
+                }
+            }
+        }
+        let bytes = self.finish_ev(b, guard(|| match bld {
+            B::Raw(x) => x.into_inner(),
+            B::Map(x) => x.into_inner(),
+            B::Set(x) => x.into_inner(),
+        }))?;
+        self.fsts.push((bytes, m));
+        Some(self.fsts.len())
+    }
+
     /// Register bytes obtained elsewhere as an FST whose content is claimed to be model m.
     pub fn have(&mut self, bytes: Vec<u8>, m: usize, origin: &str) -> usize {
         self.fsts.push((bytes, m));
